@@ -1,4 +1,4 @@
 From Coq Require Extraction ExtrOcamlBasic.
-From Centro Require Import Base.Sx Model.Emd Model.EmdCert Model.EmdMcf Model.EmdAsIs Model.EmdW Spec.Emd.
+From Centro Require Import Base.Sx Model.Emd Model.EmdCert Model.EmdMcf Model.EmdAsIs Model.EmdW Model.EmdP Spec.Emd.
 Extraction Language OCaml.
-Extraction "extracted/c10.ml" entry_emd entry_emdc entry_emdl entry_emdlf entry_asis entry_w32 entry_cert entry_partial entry_brute.
+Extraction "extracted/c10.ml" entry_emd entry_emdc entry_emdl entry_emdlf entry_asis entry_w32 entry_p32 entry_cert entry_partial entry_brute.
